@@ -4,6 +4,7 @@
   contains no deferred failure.
 -/
 import Fadl.Lemmas.LazyRules
+import Fadl.Lemmas.DictSem
 namespace Fadl
 set_option linter.unusedSimpArgs false
 
@@ -196,10 +197,10 @@ theorem mkDict_SL {ks vs : List Val} (hk : Val.cleanL ks = true) (hv : Val.clean
   intro x hx
   simp only [mkDictLz, hk, if_true]
   refine ⟨hx, ?_⟩
-  simp only [mkDict] at hx
-  split at hx
-  · cases hx
-  · cases hx; simp [Val.clean, hk, hv]
+  simp only [mkDict, Except.ok.injEq] at hx
+  subst hx
+  obtain ⟨e1, e2⟩ := dictBuild_clean ks vs [] [] hk hv (by simp [Val.cleanL]) (by simp [Val.cleanL])
+  simp [Val.clean, e1, e2]
 
 theorem seqRes_SL : ∀ {rs rs' : List Res}, All2 SL rs rs' → SLL (seqRes rs) (seqRes rs')
   | _, _, .nil => by intro vs h; simp [seqRes] at h; subst h; exact ⟨rfl, rfl⟩
